@@ -188,6 +188,13 @@ def gen_config(rng):
     r = rng.random()
     meta = {"name": rng.choice(["app", "app", "my-tool"]), "version": rng.choice(["1.2.3", "1.2.3", None]),
             "help": None if r < 0.5 else (rng.choice(SHORT) if r < 0.7 else _long_text(rng, False) + "\n\n" + _long_text(rng, False))}
+    # the first line of the application page (display name + version) is a paragraph like any other: long ones wrap
+    r2 = rng.random()
+    if r2 < 0.25:
+        meta["display_name"] = rng.choice(["A command line tool with quite a long display name indeed",
+                                           "Tool", "The Frobnicator Suite - Community Edition (nightly builds)"])
+    if r2 < 0.15 or 0.25 <= r2 < 0.35:
+        meta["version"] = rng.choice(["1.2.3-beta.4+build.20190902", "2019.09.02 (revision 5114f85, built on a Monday)"])
     return {"tree": tree, "meta": meta}
 
 
@@ -276,6 +283,8 @@ def build_app(config):
     cfg = DefaultApplicationConfig(meta["name"], meta["version"])
     cfg.set_catch_exceptions(True)
     cfg.set_terminate_after_run(False)
+    if meta.get("display_name") is not None:
+        cfg.set_display_name(meta["display_name"])
     if meta.get("help") is not None:
         cfg.set_help(meta["help"])
     tree = config["tree"]
